@@ -11,13 +11,27 @@ Proof.
   cbn [removelast length] in *. rewrite IH. cbn. lia.
 Qed.
 
-Lemma swap_remove_length {A} (l : list A) i : length (swap_remove l i) = length l - 1.
+Lemma swap_remove_tail_length {A} (tl : list A) :
+  length (match rev tl with [] => [] | z :: rt => z :: rev rt end) = length tl.
 Proof.
-  unfold swap_remove. destruct (rev l) as [|x r] eqn:E.
-  - assert (l = []) by (destruct l; [reflexivity|]; apply (f_equal (@length A)) in E; rewrite rev_length in E; discriminate).
-    subst. reflexivity.
-  - destruct (Nat.eqb i (length l - 1)); rewrite removelast_length; [reflexivity|].
-    rewrite upd_length. reflexivity.
+  destruct (rev tl) as [|z rt] eqn:E.
+  - apply (f_equal (@length A)) in E. rewrite rev_length in E. cbn in *. lia.
+  - apply (f_equal (@length A)) in E. rewrite rev_length in E. cbn in *. rewrite rev_length. lia.
+Qed.
+
+Lemma swap_remove_length {A} (l : list A) i : i < length l -> length (swap_remove l i) = length l - 1.
+Proof.
+  intros L. unfold swap_remove. pose proof (firstn_skipn i l) as E.
+  destruct (skipn i l) as [|x tl] eqn:S.
+  - apply (f_equal (@length A)) in S. rewrite skipn_length in S. cbn in S. lia.
+  - rewrite app_length, swap_remove_tail_length.
+    apply (f_equal (@length A)) in E. rewrite app_length in E. cbn in E. lia.
+Qed.
+
+Lemma swap_remove_le {A} (l : list A) i : length (swap_remove l i) <= length l.
+Proof.
+  destruct (Nat.lt_ge_cases i (length l)) as [L|L]; [rewrite swap_remove_length by exact L; lia|].
+  unfold swap_remove. rewrite skipn_all2 by exact L. lia.
 Qed.
 
 Lemma proc_runs_length fuel : forall n lim e runs i acc runs' ms,
@@ -27,9 +41,22 @@ Proof.
   cbn [proc_runs] in H.
   destruct (nth_error runs i) as [r|]; [|inversion H; subst; lia].
   destruct (r_inval r).
-  - apply IH in H. rewrite swap_remove_length in H. lia.
+  - apply IH in H. pose proof (swap_remove_le runs i). lia.
   - destruct (advance n lim r e); try discriminate; apply IH in H;
-      rewrite ?swap_remove_length, ?upd_length in H; lia.
+      rewrite ?upd_length in H; pose proof (swap_remove_le runs i); lia.
+Qed.
+
+Lemma argmin_from_lt (key : run -> nat) l : forall i bi bk, bi < i -> argmin_from key l i bi bk < i + length l.
+Proof.
+  induction l as [|r l IH]; intros i bi bk L; cbn [argmin_from length]; [lia|].
+  destruct (Nat.ltb (key r) bk).
+  - specialize (IH (S i) i (key r) ltac:(lia)). lia.
+  - specialize (IH (S i) bi bk ltac:(lia)). lia.
+Qed.
+Lemma argmin_lt key l i : argmin key l = Some i -> i < length l.
+Proof.
+  destruct l as [|r l]; cbn; [discriminate|]. intros H. inversion H; subst.
+  pose proof (argmin_from_lt key l 1 0 (key r)). lia.
 Qed.
 
 Lemma check_negs_length negs e runs : length (check_negs negs e runs) = length runs.
@@ -48,8 +75,9 @@ Proof.
        | Some i => (swap_remove runs i ++ [r], true, mkCnt (c_created c) (c_dropped c) (c_evicted c + 1) (c_completed c))
        | None => if b then (runs ++ [r], true, c) else (runs, false, c)
        end) = (runs', added, c') -> length runs' <= mx).
-    { intros key b. destruct runs as [|x rs]; [congruence|]. cbn [argmin].
-      intros H. inversion H; subst. rewrite app_length, swap_remove_length. cbn in *. lia. }
+    { intros key b. destruct (argmin key runs) as [i|] eqn:A.
+      - intros H. inversion H; subst. rewrite app_length, swap_remove_length by (eapply argmin_lt; eauto). cbn in *. lia.
+      - destruct runs; [congruence | discriminate]. }
     destruct st as [| | | |num den]; try (intros H; inversion H; subst; lia); try exact (Ev _ true).
     destruct (N.ltb (c_dropped c) (c_created c * num / den)); [exact (Ev _ false) | intros H; inversion H; subst; lia].
 Qed.
